@@ -6,8 +6,8 @@ RULE = (
     "procedure and sub-procedure ever obtained: an independent deep fingerprint of the LoopIR tree (node kinds, list lengths, "
     "Sym identities, constants, types, memories), str(p) and c_code_str() text-or-exception-type must be unchanged; saved "
     "cursors must resolve to the same node objects; re-running the first accepted call on its original procedure must print "
-    "the same result (catches analysis-cache corruption). Non-trivial: >=2 live procedures, >=1 failing call and >=1 accepted "
-    "call that touched an index list or callee. Distinct = digest of (program, resolved history)."
+    "the same result (catches analysis-cache corruption). Non-trivial: >=2 live procedures (source, callees, derived) and >=1 failing call "
+    "or >=1 accepted call that touched an index list or a callee. Distinct = digest of (program, resolved history)."
 )
 ASSUMPTIONS = [
     "fingerprint is computed by an own traversal over attrs fields (srcinfo ignored)",
